@@ -41,11 +41,11 @@ use super::Prop;
 use crate::common::{CaseResult, Ctx, Rng, Tier};
 
 const RULE: &str = "cases = one HTTP/2 connection each: client stream window w ∈ {1,7,16384,65535,…}, connection window, \
-duplex pipe size, 1–4 concurrent streams; per stream a scripted handler (method GET/HEAD/POST, status incl. 204/304/1xx, \
+duplex pipe size, 1–4 concurrent streams; per stream a scripted handler (method GET/HEAD/POST, status incl. 204/304, \
 body kind None/()/Bytes/SizedStream/BodyStream/raw MessageBody with chunk lists incl. empty chunks, chunks larger than the \
 window and CHUNK_SIZE, Pending, body error; handler headers incl. connection-specific ones and content-length) and a scripted \
 client (release per chunk / in batches / only when stalled, RST_STREAM after k bytes). non-trivial = at least one stream \
-delivered a non-empty body or was reset/errored mid-body; distinct = distinct (case, output) hashes";
+received at least one body byte; distinct = distinct (case, output) hashes";
 
 // ---------------------------------------------------------------------------------------------
 // case grammar
@@ -309,14 +309,21 @@ async fn client_stream(
         let mut rest = Bytes::from(vec![0x55u8; n]);
         while !rest.is_empty() {
             tx.reserve_capacity(rest.len());
-            match std::future::poll_fn(|cx| tx.poll_capacity(cx)).await {
-                Some(Ok(c)) => {
+            match tokio::time::timeout(Duration::from_secs(30), std::future::poll_fn(|cx| tx.poll_capacity(cx))).await {
+                Err(_) => {
+                    // the server never reopened its receive window
+                    let mut g = got.borrow_mut();
+                    g.end = "hang";
+                    g.detail = format!("request body upload stalled with {} bytes left", rest.len());
+                    return;
+                }
+                Ok(Some(Ok(c))) => {
                     let part = rest.split_to(c.min(rest.len()));
                     if tx.send_data(part, false).is_err() {
                         break;
                     }
                 }
-                _ => break,
+                Ok(_) => break,
             }
         }
         let _ = tx.send_data(Bytes::new(), true);
@@ -588,8 +595,15 @@ async fn scenario_inner(case: Case, log: PollLog) -> Vec<Got> {
             }
         }
     }
-    for t in tasks {
-        let _ = t.await;
+    // belt and braces: no case may block the run, whatever the code under test does
+    let _ = tokio::time::timeout(Duration::from_secs(3_600), async {
+        for t in tasks.iter_mut() {
+            let _ = t.await;
+        }
+    })
+    .await;
+    for t in &tasks {
+        t.abort();
     }
     drop(send_req);
     conn_task.abort();
@@ -678,6 +692,24 @@ fn oracle(k: usize, s: &Spec, g: &Got, raw: bool, w: usize) -> Option<(String, S
             if CONN_SPECIFIC.contains(&n.as_str()) {
                 return f("conn-header", format!("connection-specific header `{n}` on an HTTP/2 response"));
             }
+        }
+        // "well-described": every header the handler set, other than the connection-specific ones and
+        // content-length, reaches the client with the same values in the same order; a date is always there
+        let mut names: Vec<&str> = s.hdrs.iter().map(|(n, _)| n.as_str()).collect();
+        names.sort();
+        names.dedup();
+        for n in names {
+            if CONN_SPECIFIC.contains(&n) || n == "content-length" {
+                continue;
+            }
+            let want: Vec<&str> = s.hdrs.iter().filter(|(m, _)| m == n).map(|(_, v)| v.as_str()).collect();
+            let have: Vec<&str> = g.hdrs.iter().filter(|(m, _)| m == n).map(|(_, v)| v.as_str()).collect();
+            if want != have {
+                return f("handler-header", format!("handler set `{n}` = {want:?}, client received {have:?}"));
+            }
+        }
+        if !g.hdrs.iter().any(|(n, _)| n == "date") {
+            return f("no-date", "response without a date header".into());
         }
         // content-length, when one is sent, describes the handler's body
         let cls: Vec<&String> = g.hdrs.iter().filter(|(n, _)| n == "content-length").map(|(_, v)| v).collect();
